@@ -180,6 +180,7 @@ void Hist::verify_all(const char* props, const std::string& ctx, int big_touched
 
 int Hist::adopt_tree(cbor_item_t* it, const MV& shape, const char* props, std::set<const cbor_item_t*>& seen, const std::string& path) {
   if (!it) { fail(props, "built-tree-has-null-node", path + ": NULL node in a tree the library built"); return -1; }
+  { const BlockInfo* b = sa_find(it); if (!b || b->size < sizeof(cbor_item_t)) { fail(props, "built-tree-has-wild-pointer", path + ": node pointer is not a live item block of the installed allocator"); return -1; } }
   if (seen.count(it)) { fail(props, "built-tree-shares-node", path + ": node occurs twice inside a freshly built tree"); return -1; }
   for (auto& n : nodes) if (n.alive && n.impl == it) { fail(props, "built-tree-aliases-existing-item", path + fmt(": node is the existing item #%d", n.id)); return -1; }
   seen.insert(it);
@@ -271,6 +272,12 @@ OpResult Hist::run_op(const HOp& op0) {
     if (N != ~0ull) { if (N == 0) op.fk = F_NONE; else op.fkk %= N; }
     else if (op.code >= OP_PUSH && op.code <= OP_TAG_SET) op.fkk = 0;
     else op.fkk %= 3;
+  }
+  // repeated insertion (growth clause for maps and chunked strings): the same op `times` times, each with the full oracle
+  if ((op.code == OP_MAP_ADD || op.code == OP_ADD_CHUNK) && (op.d >> 4) != 0) {
+    uint64_t times = 1 + (op.d >> 4) % 4000; HOp one = op; one.d &= 15; OpResult last;
+    for (uint64_t t = 0; t < times && !failed() && !g_run.foreign_seen; t++) { last = run_op(one); if (!last.executed || last.reported_failure) break; }
+    return last;
   }
   g_log.ev("op", (uint64_t)op.code, op.a, op.b);
 
